@@ -97,7 +97,11 @@ def run_variant(v: dict, base: str, verbose: bool) -> dict:
         why = ""
         bkeys, bcode, berr = baseline(v["property"], v.get("tier", "quick"))
         new = keys_of(out) - bkeys
-        if exp == "silent":
+        if isinstance(exp, dict) and "exit" in exp and "rule" not in exp:
+            # an edit the check cannot decide: it must say so (exit 2, ANALYSIS-ERROR) and must not claim a violation
+            ok = code == exp["exit"] and not new and "VIOLATION property=" not in out
+            why = "" if ok else f"expected exit {exp['exit']} without a new report, got exit {code} new={sorted(new)[:3]}"
+        elif exp == "silent":
             ok = not new and "ANALYSIS-ERROR" not in out and code == bcode
             why = "" if ok else f"expected no new report, got exit {code} (baseline {bcode}) new={sorted(new)[:3]}"
         else:
@@ -107,7 +111,7 @@ def run_variant(v: dict, base: str, verbose: bool) -> dict:
             ok = fired and bool(hit) and (exp.get("contains", "") in " ".join(hit) or any(
                 exp.get("contains", "") in l for l in out.splitlines() if "[" + exp.get("rule", "") in l))
             why = "" if ok else f"expected rule {exp.get('rule')} / `{exp.get('contains','')}`; exit {code}; new={sorted(new)[:3]}"
-        res = {"id": v["id"], "property": v["property"], "kind": "preserving" if exp == "silent" else "breaking",
+        res = {"id": v["id"], "property": v["property"], "kind": "preserving" if exp == "silent" else ("undecidable" if isinstance(exp, dict) and "rule" not in exp else "breaking"),
                "ok": ok, "exit": code, "why": why}
         if verbose or not ok:
             res["output"] = out[-3000:] + p.stderr[-2000:]
